@@ -260,6 +260,43 @@ Proof.
   replace (length (render_sbits body) + 1)%nat with (S (length (render_sbits body))) by lia. reflexivity.
 Qed.
 
+Lemma render_lexs_cons lx r : render_lexs (lx :: r) = render_lex lx ++ render_lexs r.
+Proof. reflexivity. Qed.
+
+(* a `/` that does not open a comment *)
+Definition head_not_star (s : str) : Prop :=
+  match s with c :: _ => (c =? c_star)%N = false | [] => True end.
+
+Lemma round_slash rest st pos : head_not_star rest ->
+  scan_round st pos (c_slash :: rest) = (1%nat, tok_st st pos 1 (st_expr st), []).
+Proof.
+  intros H. unfold scan_round.
+  assert (E : comment_len (c_slash :: rest) = O).
+  { unfold comment_len. destruct rest as [|c2 r]; [reflexivity|]. cbn [head_not_star] in H. rewrite H.
+    rewrite andb_false_r. reflexivity. }
+  rewrite E. reflexivity.
+Qed.
+
+Lemma head_lex_not_star d y tail : lex_ok d y = true ->
+  match y with LCh c => (c =? c_star)%N = false | _ => True end -> head_not_star (render_lex y ++ tail).
+Proof.
+  destruct y as [c|q body| | | |k c| |g]; intros H Hs; cbn [render_lex app head_not_star]; cbn [lex_ok] in H;
+    try reflexivity; try exact Hs.
+  - apply andb_true_iff in H. destruct H as [Hq _]. destruct (quote_cases q Hq) as [-> | ->]; reflexivity.
+  - destruct g as [c|b]; cbn [render_glex app]; [|reflexivity]. cbn [glex_ok] in H.
+    apply space_not; [exact H|reflexivity].
+Qed.
+
+(* from the side condition of the grammar *)
+Lemma next_ok_head d x r tail : next_ok x r = true -> lexs_ok d r = true ->
+  x = LSlash -> head_not_star (render_lexs r ++ tail).
+Proof.
+  intros Hn Hr ->. cbn [next_ok] in Hn. destruct r as [|y r]; [discriminate|].
+  cbn [lexs_ok] in Hr. apply andb_true_iff in Hr. destruct Hr as [Hr _]. apply andb_true_iff in Hr. destruct Hr as [Hy _].
+  rewrite render_lexs_cons, <- app_assoc. apply (head_lex_not_star d); [exact Hy|].
+  destruct y; try exact I. apply negb_true_iff in Hn. exact Hn.
+Qed.
+
 (* ------------------------------------------------------------------ one lexeme *)
 Definition lex_st (st : sstate) (pos : Z) (lx : lex) : sstate :=
   if is_tok lx then tok_st st pos (zlen (render_lex lx)) (lex_d (st_expr st) lx) else st.
@@ -270,10 +307,11 @@ Lemma scan_block b rest st pos st' :
 Proof. intros Hb H. rewrite (scan_go_round b rest st pos st' []) by assumption. reflexivity. Qed.
 
 Lemma scan_lex lx rest st pos : 0 <= pos -> lex_ok (st_expr st) lx = true ->
+  (lx = LSlash -> head_not_star rest) ->
   scan_go 0 st pos (render_lex lx ++ rest) =
   scan_go 0 (lex_st st pos lx) (pos + zlen (render_lex lx)) rest.
 Proof.
-  intros Hp H. destruct lx as [c|q body| | | |k c|g]; unfold lex_st; cbn [is_tok lex_d render_lex]; cbn [lex_ok] in H.
+  intros Hp H Hsl. destruct lx as [c|q body| | | |k c| |g]; unfold lex_st; cbn [is_tok lex_d render_lex]; cbn [lex_ok] in H.
   - apply (scan_block [c]); [discriminate|]. apply round_plain. exact H.
   - apply andb_true_iff in H. destruct H as [Hq Hb].
     apply (scan_block (q :: render_sbits body ++ [q])); [discriminate|]. apply round_str; assumption.
@@ -293,12 +331,11 @@ Proof.
     rewrite tok_st_expr. rewrite tok_st_seq by exact Hp.
     change (c_colon :: repeat c_colon (S k) ++ [c]) with ((c_colon :: repeat c_colon (S k)) ++ [c]).
     rewrite zlen_app. change (zlen [c]) with 1. f_equal. lia.
+  - apply (scan_block [c_slash]); [discriminate|]. apply round_slash. apply Hsl. reflexivity.
   - apply scan_glex. exact H.
 Qed.
 
 (* ------------------------------------------------------------------ runs *)
-Lemma render_lexs_cons lx r : render_lexs (lx :: r) = render_lex lx ++ render_lexs r.
-Proof. reflexivity. Qed.
 
 Lemma gap_lex_d ex lx : is_tok lx = false -> lex_d ex lx = ex.
 Proof. destruct lx; intros H; try discriminate; reflexivity. Qed.
@@ -318,9 +355,11 @@ Proof.
   - exists n. change (zlen (render_lexs [])) with 0. cbn [render_lexs flat_map app lexs_d]. rewrite Z.add_0_r.
     repeat split; try lia.
   - cbn [lexs_ok] in H. apply andb_true_iff in H. destruct H as [H1 H2].
+    apply andb_true_iff in H1. destruct H1 as [H1 Hnx].
     rewrite render_lexs_cons, <- app_assoc, zlen_app.
     pose proof (zlen_nonneg (render_lex lx)) as Hl.
-    rewrite (scan_lex lx _ (tok_st st p0 n ex) pos) by (try exact H1; lia).
+    rewrite (scan_lex lx _ (tok_st st p0 n ex) pos);
+      [|lia|exact H1|apply (next_ok_head (lex_d ex lx)); assumption].
     unfold lex_st. rewrite tok_st_expr. cbn [lexs_d].
     destruct (is_tok lx) eqn:Et.
     + rewrite tok_st_seq2 by exact Hp0.
@@ -347,10 +386,12 @@ Proof.
   apply andb_true_iff in H. destruct H as [H1 H2]. apply Z.eqb_eq in H2.
   destruct r as [|lx r]; [discriminate|]. cbn [starts_tok] in H3.
   cbn [lexs_ok] in H1. apply andb_true_iff in H1. destruct H1 as [H1 H1'].
+  apply andb_true_iff in H1. destruct H1 as [H1 Hnx].
   cbn [lexs_d] in H2.
   rewrite render_lexs_cons, <- app_assoc, zlen_app.
   pose proof (zlen_nonneg (render_lex lx)) as Hl.
-  rewrite (scan_lex lx _ st pos) by (try (rewrite He; exact H1); lia).
+  rewrite (scan_lex lx _ st pos);
+    [|lia|rewrite He; exact H1|apply (next_ok_head (lex_d 0 lx)); assumption].
   unfold lex_st. rewrite H3, He.
   destruct (scan_lexs_after r st pos (zlen (render_lex lx)) (lex_d 0 lx) (pos + zlen (render_lex lx)) rest)
     as (m & Hm & Hmle & Hs & Hend); try lia; try exact H1'.
@@ -415,7 +456,7 @@ Qed.
 Lemma head_tok lx tail : lex_ok 0 lx = true -> is_tok lx = true ->
   match lx with LPseudo _ _ => False | _ => True end -> head_not_colon (render_lex lx ++ tail).
 Proof.
-  destruct lx as [c|q body| | | |k c|g]; intros H Ht Hp; cbn [render_lex app head_not_colon]; cbn [lex_ok] in H;
+  destruct lx as [c|q body| | | |k c| |g]; intros H Ht Hp; cbn [render_lex app head_not_colon]; cbn [lex_ok] in H;
     try reflexivity; try contradiction; try discriminate.
   - apply plain_inv in H. destruct H as (_ & _ & _ & _ & _ & H & _). rewrite N.eqb_sym. exact H.
   - apply andb_true_iff in H. destruct H as [Hq _]. destruct (quote_cases q Hq) as [-> | ->]; reflexivity.
@@ -429,7 +470,7 @@ Proof.
     apply andb_true_iff in Hr. destruct Hr as [Hr _]. apply andb_true_iff in Hr. destruct Hr as [Hr H3].
     apply andb_true_iff in Hr. destruct Hr as [H1 _].
     destruct r as [|lx r]; [discriminate|]. cbn [starts_tok] in H3. cbn [lexs_ok] in H1.
-    apply andb_true_iff in H1. destruct H1 as [H1 _].
+    apply andb_true_iff in H1. destruct H1 as [H1 _]. apply andb_true_iff in H1. destruct H1 as [H1 _].
     rewrite render_lexs_cons, <- app_assoc. apply head_tok; [exact H1|exact H3|].
     cbn [colon_sep] in Hs. destruct lx; try exact I. discriminate.
   - cbn [gap_ok forallb] in Hg. apply andb_true_iff in Hg. destruct Hg as [Hx _].
